@@ -7,6 +7,7 @@ from .absmodel import PAGE, PAYLOAD, logical
 from .harness import Scenario
 from .interp import Inconclusive
 from .models import NoneV, SomeV, U64
+from .models2 import float_bits
 from .replay import CBuf, mbytes, mval, rust_bytes
 from .spec_abs import AbsReaderReplay, mk_abs_reader, native_abs_reader
 from .spec_page import fresh, init_interp, parse_result
@@ -103,7 +104,8 @@ def advance_scenario(proto, max_pages=3, assume_kind=None, max_stream=None, step
             # bound: every byte-stream length field of the data packet is <= max_stream (keeps the number of decoded values small)
             for i in range(len(proto)):
                 lo, hi = s.D(s.cursor + U64(6 + 2 * i)), s.D(s.cursor + U64(7 + 2 * i))
-                I.path.assume(z3.And(hi == z3.BitVecVal(0, 8), z3.ULE(lo, z3.BitVecVal(max_stream, 8))))
+                ms = max_stream[i] if isinstance(max_stream, (list, tuple)) else max_stream
+                I.path.assume(z3.And(hi == z3.BitVecVal(0, 8), z3.ULE(lo, z3.BitVecVal(ms, 8))))
         s.results = []
         for _ in range(steps):
             r = I.call_fn(I.methods[("QueueReader", None, "advance")], [Ref(Loc(s.holder, "q"))])
@@ -180,9 +182,9 @@ def advance_claims(s, I):
                 got = it.fields[0]
                 okv = got == want
             elif d[0] == "Double":
-                okv = z3.fpToIEEEBV(it.fields[0]) == raw
+                okv = float_bits(it.fields[0]) == raw
             else:
-                okv = z3.fpToIEEEBV(it.fields[0]) == z3.Extract(31, 0, raw)
+                okv = float_bits(it.fields[0]) == z3.Extract(31, 0, raw)
             out.append(("data packet: value %d of stream %d = SPEC-bits decode" % (j, i), z3.Implies(is_data, okv)))
             out.append(("data packet: value %d of stream %d has the declared kind" % (j, i), z3.BoolVal(it.vname == {"Integer": "Integer", "ScaledInteger": "ScaledInteger", "Double": "Double", "Single": "Single"}[d[0]])))
     # zero-width attributes: synthesised values equal the minimum, and as many as the shortest real queue
@@ -283,8 +285,13 @@ class AdvanceReplay(AbsReaderReplay):
         # the post dump borrows `r` while `q` is alive: end q's borrow first
         drv = drv.replace('dump("post", &r);', 'drop(q); dump("post", &r);')
         code = {"paged_reader.rs": drv, "queue_reader.rs": QR_HELPER}
-        rc, out = run_rust_test(I.crate_dir, None, code, timeout=120)
+        bounded = claim_name == "bounded work per call"
+        rc, out = run_rust_test(I.crate_dir, None, code, timeout=300, run_timeout=20 if bounded else None, mem_gb=3 if bounded else None)
         kv = parse_kv(out)
+        if bounded:
+            info = dict(pre={k: (len(v) if isinstance(v, bytes) else v) for k, v in pre.items()}, rust=drv)
+            hung = "VR-TIMEOUT" in out or "memory allocation" in out or (rc not in (0, 101) and "post_offset" not in kv and "pre_offset" in kv)
+            return hung, ("native call did not terminate within 20 s / 3 GiB" if hung else "native call returned"), info
         info = dict(pre={k: (len(v) if isinstance(v, bytes) else v) for k, v in pre.items()}, rust=drv)
         pan = native_panicked(out)
         if claim_name == "no panic":
@@ -320,12 +327,19 @@ PROTOS = {
 
 def scenarios(tier="quick"):
     out = []
+    MAXS = {"int11+double": (3, 9) if tier == "quick" else (6, 17), "int1+single+const": (1, 5, 0) if tier == "quick" else (2, 9, 1), "scaled33": 6, "int64": 9}
     for key, proto in PROTOS.items():
         if tier == "quick" and key in ("int64",):
             continue
         rp = AdvanceReplay(_adv_op_factory(proto), _adv_extra, _adv_rebuild_factory(proto))
-        out.append(Scenario("QueueReader::advance over a data packet, prototype %s, any bytes (streams <= 6 B)" % key,
-                            advance_scenario(proto, assume_kind=1, max_stream=6), advance_claims, max_paths=3000, time_budget=900, replayer=rp))
+        out.append(Scenario("QueueReader::advance over a data packet, prototype %s, any bytes (streams <= %s B)" % (key, MAXS[key]),
+                            advance_scenario(proto, assume_kind=1, max_stream=MAXS[key]), advance_claims, max_paths=3000, time_budget=900, replayer=rp))
+    zproto = [("CartesianX", ("Integer", 3, 3)), ("CartesianY", ("Integer", -1, -1))]
+    zs = Scenario("QueueReader::advance, prototype whose records all have min = max, any packet bytes",
+                  advance_scenario(zproto, assume_kind=1, max_stream=(0, 0)), advance_claims, max_paths=400,
+                  replayer=AdvanceReplay(_adv_op_factory(zproto), _adv_extra, _adv_rebuild_factory(zproto)))
+    zs.step_bound_is_violation = True
+    out.append(zs)
     proto = PROTOS["int11+double"]
     rp = AdvanceReplay(_adv_op_factory(proto), _adv_extra, _adv_rebuild_factory(proto))
     out.append(Scenario("QueueReader::advance over an index packet, any bytes", advance_scenario(proto, assume_kind=0), advance_claims, max_paths=600, replayer=rp))
